@@ -14,7 +14,7 @@ import (
 	"berty.tech/go-ipfs-log/io/cbor"
 )
 
-var startCase, onlyCase = 0, -1
+var startCase, onlyCase, maxOps = 0, -1, -1
 
 // skipCase says whether case index h is excluded by -start / -only.
 func skipCase(h int) bool {
@@ -48,6 +48,7 @@ func main() {
 	fs.BoolVar(&codecChild, "nochild", false, "codec: do not spawn the cross-process check")
 	fs.IntVar(&startCase, "start", 0, "first case index to run")
 	fs.IntVar(&onlyCase, "only", -1, "run only this case index")
+	fs.IntVar(&maxOps, "maxops", -1, "core: truncate every history after this many operations (shrinking)")
 	_ = fs.Parse(os.Args[2:])
 
 	var f *os.File = os.Stdout
